@@ -80,6 +80,28 @@ type world struct {
 	gzip bool
 	// cut: sequence number -> number of body bytes after which the transfer breaks off
 	cut map[uint64]int
+	// prefix: the path under which the replication tree lives on this mirror ("" = server root)
+	prefix string
+	// stream: responses are flushed before the body is written (chunked, no Content-Length)
+	stream bool
+}
+
+// the datasource under test and the server's address: the base URL is re-pointed for every
+// directory / lookup at one of these mirrors
+var (
+	theDS      *replication.Datasource
+	srvURL     string
+	prefixes   = []string{"", "/pub/planet", "", "/pub/misc/openstreetmap/planet.openstreetmap.org", "/mirror/", ""}
+	mirrorTick int
+)
+
+func (w *world) nextMirror() {
+	mirrorTick++
+	w.prefix = prefixes[mirrorTick%len(prefixes)]
+	w.stream = mirrorTick%3 == 1
+	if theDS != nil {
+		theDS.BaseURL = srvURL + w.prefix
+	}
 }
 
 var pathRe = regexp.MustCompile(`^/replication/([a-z]+)/([0-9]+)/([0-9]{3})/([0-9]{3})(\.[a-z.]+)$`)
@@ -125,6 +147,17 @@ func (w *world) ServeHTTP(rw http.ResponseWriter, r *http.Request) {
 	w.mu.Lock()
 	defer w.mu.Unlock()
 	p := r.URL.EscapedPath()
+	// the replication tree is served under a path prefix (a mirror); like a file server, runs
+	// of slashes count as one (a base URL given with a trailing slash)
+	for strings.Contains(p, "//") {
+		p = strings.ReplaceAll(p, "//", "/")
+	}
+	pre := strings.TrimSuffix(w.prefix, "/")
+	if strings.HasPrefix(p, pre+"/") {
+		p = p[len(pre):]
+	} else if pre != "" {
+		p = "!outside-the-mirror:" + p
+	}
 	w.paths = append(w.paths, p)
 	if r.Method != http.MethodGet || r.URL.RawQuery != "" {
 		w.trace = append(w.trace, -1)
@@ -156,6 +189,15 @@ func (w *world) ServeHTTP(rw http.ResponseWriter, r *http.Request) {
 		rw.Write(body[:k])
 		return
 	}
+	if w.stream {
+		// a streaming server: headers and an empty flush first, the body afterwards
+		rw.WriteHeader(200)
+		if f, ok := rw.(http.Flusher); ok {
+			f.Flush()
+		}
+		rw.Write(body)
+		return
+	}
 	if w.gzip && strings.Contains(r.Header.Get("Accept-Encoding"), "gzip") {
 		var zb bytes.Buffer
 		zw := gzip.NewWriter(&zb)
@@ -179,12 +221,14 @@ func (w *world) reset(kind int, budget int) {
 	w.cut = map[uint64]int{}
 	gzipTick++
 	w.gzip = gzipTick%2 == 0 // every other directory / file is served by a compressing server
+	w.nextMirror()
 	w.mu.Unlock()
 }
 
 func (w *world) rearm(budget int) {
 	w.mu.Lock()
 	w.budget, w.trace, w.paths = budget, nil, nil
+	w.nextMirror()
 	w.mu.Unlock()
 }
 
@@ -442,7 +486,7 @@ func searchCaseAt(w *world, ds *replication.Datasource, d *dirSpec, qt time.Time
 	}
 	c.Int(errclass).Int(seq).Int(ts).Ints(trace)
 	desc := map[string]interface{}{"kind": dirs[d.kind], "first_seq": d.base, "stamps_ns_since_2012-09-12": stamps,
-		"current_state_file": d.curOK, "largest_state_file_bytes": d.maxBody, "server_gzips": w.gzip, "t": t, "process_time_zone": zone, "err": es, "seq": seq, "ts": ts, "requests": trace}
+		"current_state_file": d.curOK, "largest_state_file_bytes": d.maxBody, "server_gzips": w.gzip, "mirror_path_prefix": w.prefix, "server_streams": w.stream, "t": t, "process_time_zone": zone, "err": es, "seq": seq, "ts": ts, "requests": trace}
 	if len(paths) > 0 {
 		desc["first_request"] = paths[0]
 		desc["last_request"] = paths[len(paths)-1]
@@ -1180,7 +1224,7 @@ func faultCase(w *world, ds *replication.Datasource, rng *rand.Rand) *wire.Case 
 		// a file the lookup really asks for
 		t = queryTimes(rng, d, 1)[0]
 		w.rearm(1000)
-		stateAt(ds, kind, epoch.Add(time.Duration(t)))
+		withZone(func() { stateAt(ds, kind, epoch.Add(time.Duration(t))) }) // (recovers a panicking library)
 		w.mu.Lock()
 		var probed []uint64
 		for _, x := range w.trace {
@@ -1269,6 +1313,7 @@ func main() {
 	defer srv.Close()
 	ds := replication.NewDatasource(srv.Client())
 	ds.BaseURL = srv.URL
+	theDS, srvURL = ds, srv.URL
 
 	// VERIF_C19_MIN=a,b,c,d overrides the first considered sequence numbers (experiments on
 	// other versions of the code only)
